@@ -51,6 +51,39 @@ func depsFamily(c map[string]json.RawMessage) (interface{}, error) {
 		if err := json.Unmarshal(c["clzs"], &nodes); err != nil {
 			return nil, err
 		}
+		if boolean(c, "cli") {
+			// the dependency sub-command itself in a fresh process: the imports as Java sources in the tree, `deps -p dir`,
+			// the printed table read back
+			for _, n := range nodes {
+				src := "package " + n.Package + ";\n\n"
+				for _, i := range n.Imports {
+					src += "import " + i.Source + ";\n"
+				}
+				src += "\npublic class " + n.NodeName + " {\n}\n"
+				p := filepath.Join(dir, "src", "main", "java", n.Package, n.NodeName+".java")
+				_ = os.MkdirAll(filepath.Dir(p), 0755)
+				if err := os.WriteFile(p, []byte(src), 0644); err != nil {
+					return nil, err
+				}
+			}
+			work, err := newWork()
+			if err != nil {
+				return nil, err
+			}
+			defer os.RemoveAll(work)
+			stdout, err := cocaCliMode("__cli_dep", work, "deps", "-p", dir)
+			if err != nil {
+				return nil, err
+			}
+			out := []map[string]string{}
+			for i, row := range tableRows(stdout, 3) {
+				if i == 0 {
+					continue // header
+				}
+				out = append(out, map[string]string{"GroupId": row[0], "ArtifactId": row[1], "Scope": row[2]})
+			}
+			return map[string]interface{}{"deps": out}, nil
+		}
 		return map[string]interface{}{"deps": depsOut(deps.NewDepApp().AnalysisPath(dir, nodes))}, nil
 	}
 	return nil, nil
